@@ -1,4 +1,5 @@
 import PanderaModel.Parse
+import PanderaModel.Polars
 /-!
 # C03 — whatever validate returns conforms to the schema (parse postcondition)
 -/
@@ -276,6 +277,76 @@ example :
       { columns := [{ name := some "a", dtype := some .int64, coerce := true }] }
       { cols := [⟨"a", .str, [.str "1", .str "-2"]⟩], index := [⟨none, .int64, [.int 0, .int 1]⟩], nrows := 2 }
     = .ok { cols := [⟨"a", .int64, [.int 1, .int (-2)]⟩], index := [⟨none, .int64, [.int 0, .int 1]⟩], nrows := 2 } := by
+  decide
+
+/-! ## polars: the postcondition holds for every parser pipeline -/
+
+/-- the polars container with **any** parser pipeline `parse` (add_missing_columns, strict='filter',
+coercion, defaults — whatever they do, in whatever order): its errors, then the strict / ordered test
+(made by a parser, on the labels of the *input* frame), then the core checks of `Polars.lean` on the
+parsed frame -/
+def validateLazyPl (parse : Schema → Frame → Frame × List Err) (S : Schema) (D : Frame) : ValidateOut :=
+  let r := parse S D
+  let es := r.2 ++ strictOrderedErrors S D ++ Polars.coreErrors S r.1
+  if es.isEmpty then .ok r.1 else .errors es
+
+/-- the polars core checks never look at a parsing option -/
+theorem polars_checks_ignore_parsing_options (S : Schema) (X : Frame) :
+    Polars.coreErrors (Schema.strip S) X = Polars.coreErrors S X := by
+  unfold Polars.coreErrors
+  have h2 : Polars.presenceErrors (Schema.strip S) X = Polars.presenceErrors S X := by
+    unfold Polars.presenceErrors absentNames Schema.strip
+    simp only [List.filterMap_map, Function.comp_def]
+    rfl
+  have h3 : Polars.jointUniqueErrors (Schema.strip S) X = Polars.jointUniqueErrors S X := rfl
+  have h4 : (Schema.strip S).columns.map (fun c => Polars.columnErrors c X)
+      = S.columns.map (fun c => Polars.columnErrors c X) := by
+    simp only [Schema.strip, List.map_map, Function.comp_def]
+    apply List.map_congr_left
+    intro c _
+    rfl
+  rw [h2, h3, h4]
+
+/-- **C03 for polars**: whatever the lazy run returns passes every core check of the schema with all
+parsing options switched off — for every parser pipeline, so whatever the parsers' order or bugs -/
+theorem polars_validate_ok_core_checks (parse : Schema → Frame → Frame × List Err) (S : Schema) (D D' : Frame)
+    (h : validateLazyPl parse S D = .ok D') :
+    Polars.coreErrors (Schema.strip S) D' = [] ∧ strictOrderedErrors S D = [] := by
+  rw [polars_checks_ignore_parsing_options]
+  unfold validateLazyPl at h
+  simp only at h
+  split at h
+  · rename_i he
+    simp only [ValidateOut.ok.injEq] at h
+    subst h
+    simp only [List.isEmpty_iff, List.append_eq_nil_iff] at he
+    exact ⟨he.2, he.1.2⟩
+  · cases h
+
+/-- a parser that leaves the frame alone: validating a returned frame again returns it unchanged -/
+theorem polars_validate_again (S : Schema) (D D' : Frame)
+    (h : validateLazyPl (fun _ X => (X, [])) S D = .ok D') : validateLazyPl (fun _ X => (X, [])) S D' = .ok D' := by
+  unfold validateLazyPl at h ⊢
+  simp only at h ⊢
+  split at h
+  · simp only [ValidateOut.ok.injEq] at h
+    subst h
+    rename_i he
+    simp only [List.isEmpty_iff, List.nil_append, List.append_eq_nil_iff] at he ⊢
+    simp [he.1, he.2]
+  · cases h
+
+/-- the strict / ordered test is not repeated on the parsed frame: a parser that appends an inserted
+column at the end yields a returned frame that violates `ordered` (the shape of the seeded change
+C03-D; the pandas analogue is the recorded region `K_C03_staleColumnInfo`) -/
+theorem polars_stale_order_witness :
+    let S : Schema := { columns := [{ name := some "a", default := some (.int 0), dtype := some .int64 },
+                                    { name := some "b", dtype := some .int64 }], ordered := true, addMissing := true }
+    let D : Frame := { cols := [⟨"b", .int64, [.int 1]⟩], index := [⟨none, .int64, [.int 0]⟩], nrows := 1 }
+    let appendMissing : Schema → Frame → Frame × List Err :=
+      fun _ X => ({ X with cols := X.cols ++ [⟨"a", .int64, [.int 0]⟩] }, [])
+    (∃ P, validateLazyPl appendMissing S D = .ok P ∧ strictOrderedErrors S P ≠ []) := by
+  refine ⟨_, rfl, ?_⟩
   decide
 
 end C03
